@@ -212,7 +212,12 @@ func scenarios(tier string) (two, three []*engine.Scenario) {
 	// traffic pending on the shared socket when the handles close
 	for _, ps := range [][]program{{"skc"}, {"pdc"}, {"skc", "sc"}, {"pdc", "pc"}, {"skc", "pdc"}, {"sksc c", "sc"},
 		// handles closed again and used after their close
-		{"scrr"}, {"scra"}, {"pca"}, {"scrra", "sc"}, {"pca", "pc"}, {"sscrr c", "scr"}} {
+		{"scrr"}, {"scra"}, {"pca"}, {"scrra", "sc"}, {"pca", "pc"}, {"sscrr c", "scr"},
+		// a closed handle used and then closed / used again; a last close overtaken by listen, close, listen
+		{"scar"}, {"scaa"}, {"scaar", "sc"}, {"sc", "scss"}} {
+		if tier != "thorough" && (len(ps) == 2 && (ps[0] == "sscrr c" || ps[0] == "scrra" || ps[0] == "sksc c" || (ps[0] == "skc" && ps[1] == "pdc"))) {
+			continue // quick: the longest of these pairs are thorough-only
+		}
 		two = append(two, scenario(ps))
 	}
 	for i := 0; i < len(small); i++ {
